@@ -179,14 +179,34 @@ def gen_case(rng, i):
     n = rng.choice([2, 2, 3, 3, 4])
     ops = []
     kinds = ["edit", "set_state", "set", "get"]
-    if i % 2 == 0:                                   # an edit block suspended across another writer
+    ctr = "n" if chain == [0] else "cnt"
+    if i % 4 == 0:                                   # a read-modify-write counter in an edit block that is
+        parts = [[("add", ctr, rng.choice([1, 2, 5]))] for _ in range(rng.choice([2, 2, 3]))]
+        for part in parts:                           # suspended across a write of the same key
+            if rng.random() < 0.3:
+                part.extend(S.gen_edits(rng, orc.cls, orc.d)[:1])
+        ops.append(("edit", parts))
+        if rng.random() < 0.6:
+            ops.append(("set", ctr, rng.choice([10, 20, 100])))
+        elif chain == [0]:
+            ops.append(("set_state", [0], {ctr: rng.choice([10, 20, 100])}))
+        else:
+            ops.append(gen_op(rng, orc, "set_state"))
+        if rng.random() < 0.5:
+            ops.append(("get", ctr))                 # an unlocked read (SQLite) interleaves with the block
+    elif i % 2 == 0:                                 # an edit block suspended across another writer
         ops.append(gen_edit(rng, orc, min_parts=2))
         ops.append(gen_op(rng, orc, rng.choice(["set_state", "set_state", "set", "edit"])))
+        if rng.random() < 0.4:
+            ops.append(gen_op(rng, orc, "get"))
     while len(ops) < n:
         ops.append(gen_op(rng, orc, rng.choice(kinds)))
     rng.shuffle(ops)
     segs = sum(len(o[1]) if o[0] == "edit" else 1 for o in ops)
     sched = [rng.randrange(len(ops)) for _ in range(rng.randint(len(ops), segs + len(ops) + 2))]
+    if i % 2 == 0 and rng.random() < 0.7:            # start the multi-part edit first, then the others
+        first = next(k for k, o in enumerate(ops) if o[0] == "edit" and len(o[1]) > 1)
+        sched = [first] + [k for k in range(len(ops)) if k != first] + sched
     return init, ops, sched
 
 
